@@ -1,13 +1,13 @@
-package c12
+package c12x
 
 import (
 	"testing"
 
 	"verif/sim/kernel"
-	"verif/sim/rigs/c12rig"
+	"verif/sim/rigs/c12cluster"
 )
 
-func init() { kernel.Register(c12rig.Rig()) }
+func init() { kernel.Register(c12cluster.Standalone()) }
 
 func TestMain(m *testing.M) { kernel.Main(m, "C12") }
 func TestSim(t *testing.T)  { kernel.Worker(t, "C12") }
